@@ -34,6 +34,7 @@ K_H5CHAIN = "hdf5-link-to-link-not-followed"
 K_H5VIA = "hdf5-path-through-link-not-followed"
 K_H5PATH = "hdf5-link-search-path-ignored"
 K_CFGADD = "cg-configure-add-path-replaces"
+K_H5LEAK = "hdf5-linked-file-stays-open-after-close"
 
 
 # ============================================================================ mirror of the world (generator + oracle)
@@ -261,6 +262,7 @@ class Gen:
         self.allow_defects = allow_defects
         self.renamed = False
         self.moved = False
+        self.forward_only = rng.random() < 0.75         # ADF: files that link to each other crash the close (K_CLOSE)
         dirs = ["m", "m", "m", "cwd", "p1", "p2", "p3", "m/sub"]
         for k in range(1, nfiles + 1):
             loc = layout[k - 1] if layout else rng.choice(dirs if k > 1 else ["m", "m", "cwd", "p1"])
@@ -332,7 +334,10 @@ class Gen:
     def file_spelling(self, src, dst):
         """a way of naming file dst from a link stored in file src"""
         rng = self.rng
-        if dst is src and rng.random() < 0.85:
+        # HDF5: a link that names its OWN file is traversed by libhdf5 as an external link; the file then stays open
+        # inside libhdf5 after cgio_close_file (descriptor leak, C17's business) and a later read-only session inherits
+        # the read-write handle.  Random HDF5 histories keep clear of that; the directed scenario `h5self` reports it.
+        if dst is src and (self.be == "hdf5" or rng.random() < 0.85):
             return b""
         r = rng.random()
         if dst.loc == "cwd":
@@ -351,6 +356,8 @@ class Gen:
         u = f.next; f.next += 1
         nm = rand_name(rng, {f.nodes[k]["name"] for k in f.kids(p)}, simple=True)
         g = rng.choice(list(w.files.values()))
+        if self.forward_only and g.fid < f.fid:
+            g = f
         kind = kind or rng.choice(["node"] * 6 + ["link", "link", "via", "via", "missing", "nofile", "cycle", "relative", "root"])
         fname = self.file_spelling(f, g)
         links = [k for k in g.nodes if g.nodes[k]["link"] is not None]
@@ -372,7 +379,7 @@ class Gen:
             path = b"/" + rand_name(rng, set(), simple=True)
         elif kind == "cycle":
             # the link names itself, or a sibling link that will name it back
-            fname = b"" if rng.random() < 0.7 else self.file_spelling(f, f)
+            fname = b"" if (rng.random() < 0.7 or self.be == "hdf5") else self.file_spelling(f, f)
             g = f
             path = f.npath(p).rstrip(b"/") + b"/" + nm
             if rng.random() < 0.5:
@@ -529,6 +536,8 @@ class Gen:
             if rng.random() < 0.6:
                 # re-target: same name, new destination
                 g = rng.choice(list(w.files.values()))
+                if self.forward_only and g.fid < f.fid:
+                    g = f
                 plain = [k for k in g.nodes if k != 0]
                 path = g.npath(rng.choice(plain)) if plain else b"/"
                 u2 = f.next; f.next += 1
@@ -551,6 +560,63 @@ class Gen:
             p = rng.choice(wide)
             for _ in range(rng.choice([3, 8, 9, 13])):          # fill sub-node tables across their growth steps
                 self.op_create(f, p)
+
+    # ---- explicit building blocks (directed scenarios)
+    def x_create(self, f, p, nm, label=b"", data=None):
+        u = f.next; f.next += 1
+        self.emit("create %d %d %d %s" % (f.fid, p, u, hx(nm)), "ok")
+        f.nodes[u] = dict(parent=p, name=nm, label=b"", dt="MT", dims=[], data=None, link=None); f.order.append(u)
+        if label:
+            self.emit("label %d %d %s" % (f.fid, u, hx(label)), "ok"); f.nodes[u]["label"] = label
+        if data is not None:
+            self.emit("dims %d %d C1 %d" % (f.fid, u, len(data)), "ok")
+            self.emit("wall %d %d %s" % (f.fid, u, data.hex()), "ok")
+            f.nodes[u].update(dt="C1", dims=[len(data)], data=data)
+        return u
+
+    def x_link(self, f, p, nm, fname, path):
+        u = f.next; f.next += 1
+        self.emit("link %d %d %d %s %s %s" % (f.fid, p, u, hx(nm), hx(fname), hx(path)), "ok")
+        f.nodes[u] = dict(parent=p, name=nm, label=b"", dt="LK", dims=[], data=None, link=(fname, path)); f.order.append(u)
+        return u
+
+    def x_rename(self, f, u, nm):
+        self.emit("rename %d %d %d %s" % (f.fid, f.nodes[u]["parent"], u, hx(nm)), "ok")
+        f.nodes[u]["name"] = nm
+        if self.be == "hdf5":
+            f.order.remove(u); f.order.append(u)
+        self.renamed = True
+
+    def x_delete(self, f, u):
+        self.emit("delete %d %d %d" % (f.fid, f.nodes[u]["parent"], u), "ok")
+        for k in f.subtree(u):
+            del f.nodes[k]; f.order.remove(k)
+
+    def x_open(self, f, mode):
+        self.emit("file %d %s %s %s" % (f.fid, hx(f.path), self.be, mode), "ok")
+        f.mode = mode
+        if mode == "w":
+            f.reset(); f.exists = True
+
+    def x_close(self, f):
+        self.emit("closef %d" % f.fid, "ok"); f.mode = None
+
+    def x_lnk(self, f, u, hint=None):
+        n = f.nodes[u]
+        self.emit("lnk %d %d" % (f.fid, u), "ok L:1:%s:%s" % (hx(n["link"][0]), hx(n["link"][1])), dict(kind="lnk", hint=hint or {}))
+
+    def x_read(self, f, u, path=b"", hint=None):
+        i = self.op_read(f, u, path)
+        if hint:
+            self.meta[i]["hint"] = hint
+        return i
+
+    def add_file(self, loc, base):
+        k = max(self.w.files) + 1 if self.w.files else 1
+        lit = base if loc == "cwd" else (self.root + "/" + loc + "/").encode() + base
+        f = FileM(k, lit, self.be); f.loc, f.base = loc, base
+        self.w.files[k] = f
+        return f
 
     # ---- phases
     def open_all(self, mode, subset=None):
@@ -721,6 +787,10 @@ def classify(be, meta, exp, got, mod):
     """name the known defect class of a failed through-read -- only when the faithful model predicts the observed line"""
     if mod is None or mod != got:
         return None
+    if meta.get("hint", {}).get(be):
+        return meta["hint"][be]
+    if be == "adf" and (got == "err other" or got.endswith("!err other")) and meta.get("user_open"):
+        return K_CLOSE9                       # the file was opened by the caller; the model says it has been closed
     tr = meta.get("trace")
     if tr is None:
         return None
@@ -735,3 +805,296 @@ def classify(be, meta, exp, got, mod):
     if tr["landed_on_link"] or tr["hops"] > 1:
         return K_H5CHAIN
     return None
+
+
+# ============================================================================ directed scenarios (witnesses and boundaries)
+def scenario(name, rng, be, root):
+    """-> Gen with a fixed script; None when the scenario does not apply to this back end"""
+    g = Gen(rng, be, root, 0)
+    g.emit("pathdel", "ok")
+    for nme in ("ADF_LINK_PATH", "HDF5_LINK_PATH", "CGNS_LINK_PATH"):
+        g.emit("setenv %s -" % nme, "ok")
+    A = g.add_file("m", b"a.cgns")
+    if name == "stale":
+        # C08_cache_refuted: read through L, rename the target, read again; then a new node takes the old name
+        g.x_open(A, "w")
+        a = g.x_create(A, 0, b"A"); b = g.x_create(A, a, b"B", b"LabelB", b"payload"); g.x_create(A, b, b"K", b"LabelK")
+        L = g.x_link(A, 0, b"L", b"", b"/A/B")
+        g.x_read(A, L); g.x_rename(A, b, b"C"); g.x_read(A, L, hint={"adf": K_STALE}); g.x_read(A, L, b"K", hint={"adf": K_STALE})
+        g.x_create(A, a, b"B", b"the new B"); g.x_read(A, L, hint={"adf": K_STALE})
+        g.x_delete(A, b); g.x_read(A, L)                      # a delete clears the cache: now the new B answers
+        g.x_close(A)
+    elif name == "nest":
+        # C08_terminates_refuted: a stored path that passes through the link itself
+        g.x_open(A, "w"); g.x_create(A, 0, b"T", b"LabelT")
+        L = g.x_link(A, 0, b"L", b"", b"/L/x"); g.x_lnk(A, L); g.x_read(A, L); g.x_close(A)
+    elif name == "nest2":
+        g.x_open(A, "w"); g.x_create(A, 0, b"T", b"LabelT")
+        g.x_link(A, 0, b"P", b"", b"/Q/y"); Q = g.x_link(A, 0, b"Q", b"", b"/P/x"); g.x_read(A, Q); g.x_close(A)
+    elif name == "mutual":
+        # C08_close_recursion_refuted: A:/LA -> B:/LB -> A:/T is a fine chain; closing A never returns
+        B = g.add_file("m", b"b.cgns")
+        g.x_open(A, "w"); g.x_create(A, 0, b"T", b"LabelT", b"xyz"); LA = g.x_link(A, 0, b"LA", b"b.cgns", b"/LB"); g.x_close(A)
+        g.x_open(B, "w"); g.x_link(B, 0, b"LB", b"a.cgns", b"/T"); g.x_close(B)
+        g.x_open(A, "r"); g.x_read(A, LA); g.x_close(A)
+        g.x_open(A, "r"); g.x_read(A, LA); g.x_close(A)
+    elif name == "close9":
+        # C08_close_refuted (#9): A -> B, C -> A; the caller holds A, B and C; closing C then A closes B behind his back
+        B = g.add_file("m", b"b.cgns"); C = g.add_file("m", b"c.cgns")
+        g.x_open(B, "w"); x = g.x_create(B, 0, b"X", b"LabelX"); g.x_create(B, x, b"Y", b"LabelY"); g.x_close(B)
+        g.x_open(A, "w"); L1 = g.x_link(A, 0, b"L1", b"b.cgns", b"/X"); g.x_close(A)
+        g.x_open(C, "w"); LC = g.x_link(C, 0, b"LC", b"a.cgns", b"/L1"); g.x_close(C)
+        g.x_open(A, "r"); g.x_open(B, "r"); g.x_open(C, "r")
+        g.x_read(A, L1); g.x_read(C, LC); g.x_read(C, LC, b"Y")
+        g.x_close(C); g.x_read(A, L1); g.x_close(A)
+        g.x_read(B, x)                                         # B was opened by the caller and never closed by him
+        g.x_close(B)
+    elif name in ("chain100", "chain101", "chain5"):
+        n = {"chain100": 100, "chain101": 101, "chain5": 5}[name]
+        g.x_open(A, "w"); g.x_create(A, 0, b"T", b"LabelT", b"0123")
+        prev = b"/T"; last = None
+        for k in range(1, n + 1):
+            nm = b"L%03d" % k
+            last = g.x_link(A, 0, nm, b"", prev); prev = b"/" + nm
+        g.x_read(A, last); g.x_read(A, 0, prev); g.x_close(A)
+        g.x_open(A, "r"); g.x_read(A, last); g.x_close(A)
+    elif name == "cycle":
+        g.x_open(A, "w")
+        P = g.x_link(A, 0, b"P", b"", b"/Q"); Q = g.x_link(A, 0, b"Q", b"", b"/P"); S = g.x_link(A, 0, b"S", b"", b"/S")
+        g.x_read(A, P); g.x_read(A, Q); g.x_read(A, S); g.x_read(A, 0, b"/P/x"); g.x_lnk(A, S); g.x_close(A)
+    elif name == "via":
+        # a stored path and a caller's path that pass through a link
+        g.x_open(A, "w")
+        t = g.x_create(A, 0, b"T", b"LabelT"); k = g.x_create(A, t, b"K", b"LabelK", b"kk"); g.x_create(A, k, b"M", b"LabelM")
+        L2 = g.x_link(A, 0, b"L2", b"", b"/T"); L1 = g.x_link(A, 0, b"L1", b"", b"/L2/K")
+        g.x_read(A, L2); g.x_read(A, L2, b"K"); g.x_read(A, L2, b"K/M"); g.x_read(A, 0, b"/L2/K/M")
+        g.x_read(A, L1); g.x_read(A, L1, b"M"); g.x_read(A, 0, b"/L1/M")
+        g.x_close(A)
+    elif name == "dangling":
+        B = g.add_file("m", b"b.cgns")
+        g.x_open(A, "w")
+        Lf = g.x_link(A, 0, b"Lf", b"b.cgns", b"/X"); Lp = g.x_link(A, 0, b"Lp", b"", b"/Later/On")
+        La = g.x_link(A, 0, b"La", (root + "/nodir/zz.cgns").encode(), b"/X")
+        for L in (Lf, Lp, La):
+            g.x_read(A, L); g.x_lnk(A, L)
+        g.emit("sub %d 0" % A.fid, sub_line(A, 0, be), dict(kind="dump"))      # a failing read changed nothing
+        lt = g.x_create(A, 0, b"Later"); g.x_create(A, lt, b"On", b"here now"); g.x_read(A, Lp)
+        g.x_open(B, "w"); g.x_create(B, 0, b"X", b"LabelX"); g.x_read(A, Lf); g.x_close(B); g.x_read(A, Lf)
+        g.x_close(A)
+    elif name == "retarget":
+        g.x_open(A, "w")
+        t1 = g.x_create(A, 0, b"T1", b"one", b"1111"); t2 = g.x_create(A, 0, b"T2", b"two", b"22")
+        L = g.x_link(A, 0, b"L", b"", b"/T1"); g.x_read(A, L)
+        for tgt, path in ((t2, b"/T2"), (t1, b"T1"), (t2, b"/T2")):
+            before = g.emit("sub %d 0" % A.fid, None)
+            g.x_delete(A, L)
+            L = g.x_link(A, 0, b"L", b"", path); g.x_read(A, L)
+        g.x_close(A)
+    elif name == "search":
+        # every rule of the documented order in turn: the candidates are removed one by one
+        locs = [("m", "parentdir"), ("cwd", "cwd"), ("p1", "typeenv"), ("p2", "cgnsenv"), ("p3", "pathlist"), ("m/sub", "pathlist2")]
+        tf = []
+        for loc, rule in locs:
+            f = g.add_file(loc, b"t.cgns"); tf.append(f)
+            g.x_open(f, "w"); g.x_create(f, 0, b"X", ("found by " + rule).encode()); g.x_close(f)
+        other = "hdf5" if be == "adf" else "adf"
+        g.emit("setenv %s %s" % (ENVNAME[be], hx(b":" + g.P("nodir") + b":" + g.P("p1") + b"/")), "ok")
+        g.w.env[ENVNAME[be]] = b":" + g.P("nodir") + b":" + g.P("p1") + b"/"
+        g.emit("setenv %s %s" % (ENVNAME[other], hx(g.P("p3"))), "ok"); g.w.env[ENVNAME[other]] = g.P("p3")
+        g.emit("setenv CGNS_LINK_PATH %s" % hx(g.P("p2")), "ok"); g.w.env["CGNS_LINK_PATH"] = g.P("p2")
+        for v in (g.P("nodir") + b":" + g.P("p3"), g.P("m/sub")):
+            g.emit("pathadd %s" % hx(v), "ok"); g.w.plist.append(v)
+        g.x_open(A, "w"); L = g.x_link(A, 0, b"L", b"t.cgns", b"/X"); g.x_close(A)
+        for f in tf + [None]:
+            g.x_open(A, "r"); g.x_read(A, L, hint={"hdf5": K_H5PATH}); g.x_close(A)
+            if f is not None:
+                g.emit("unlinkf %s" % hx(f.path), "ok"); f.exists = False
+    elif name == "sep":
+        # C08_link_query_refuted: a file name that contains the payload separator
+        B = g.add_file("m", b"x>y.cgns")
+        g.x_open(B, "w"); g.x_create(B, 0, b"T", b"LabelT"); g.x_close(B)
+        g.x_open(A, "w"); L = g.x_link(A, 0, b"L", b"x>y.cgns", b"/T")
+        g.x_lnk(A, L, hint={"adf": K_SEP}); g.x_read(A, L, hint={"adf": K_SEP}); g.x_close(A)
+    else:
+        raise ValueError(name)
+    return g
+
+
+SCENARIOS = ["stale", "nest", "nest2", "mutual", "close9", "chain5", "chain100", "chain101", "cycle", "via", "dangling",
+             "retarget", "search", "sep"]
+
+
+# ============================================================================ mid-level tier (harness/c08_mll.c)
+import struct
+
+
+def mll_val(seed, z, c, i):
+    return float(((seed * 2654435761 + z * 40503 + c * 977 + i * 31) & 0xFFFFFFFF) % 100003) / 7.0
+
+
+def mll_coords_line(seed, z):
+    out = "ok C:3"
+    for c, nm in enumerate(("CoordinateX", "CoordinateY", "CoordinateZ")):
+        out += ":%s/4=" % nm + b"".join(struct.pack("<d", mll_val(seed, z, c, i)) for i in range(27)).hex()
+    return out
+
+
+def mll_sol_line(seed, z):
+    return "ok S:1:Sol/2/1,Density=" + b"".join(struct.pack("<d", mll_val(seed, z, 7, i)) for i in range(27)).hex()
+
+
+class MllCase:
+    def __init__(self, name, be, root):
+        self.name, self.be, self.root = name, be, root
+        self.lines, self.expect, self.hint = ["ftype %s" % be], ["ok"], [None]
+
+    def P(self, s):
+        return (self.root + "/" + s).encode()
+
+    def add(self, line, expect="ok", hint=None):
+        self.lines.append(line); self.expect.append(expect); self.hint.append(hint)
+        return len(self.lines) - 1
+
+
+def mll_cases(rng, be, root):
+    """scripts + expected lines; the expectations come from the generator's own arithmetic (what mkfile wrote) and from
+    direct reads of the target file in the same session -- never from the Coq model"""
+    cases = []
+    sb, sa = rng.randint(1, 10 ** 6), rng.randint(1, 10 ** 6)
+    GC, SOL = b"/Base/Zone1/GridCoordinates", b"/Base/Zone1/Sol"
+    chain_hint = {"hdf5": K_H5CHAIN}
+
+    def basic(name, bloc, fname, config=(), hint=None, readback=True):
+        c = MllCase(name, be, root)
+        bpath = c.P(bloc + "/b.cgns") if bloc != "cwd" else b"b.cgns"
+        apath = c.P("m/a.cgns")
+        for nme in ("ADF_LINK_PATH", "HDF5_LINK_PATH", "CGNS_LINK_PATH"):
+            c.add("setenv %s -" % nme)
+        c.add("setpath -")
+        c.add("mkfile %s 2 %d 1 1" % (hx(bpath), sb))
+        c.add("mkfile %s 1 %d 0 0" % (hx(apath), sa))
+        c.add("open 0 %s m" % hx(apath))
+        c.add("linkw 0 %s %s %s %s" % (hx(b"/Base/Zone1"), hx(b"GridCoordinates"), hx(fname), hx(b"/Base/Zone2/GridCoordinates")))
+        c.add("linkw 0 %s %s %s %s" % (hx(b"/Base/Zone1"), hx(b"Sol"), hx(fname), hx(SOL)))
+        c.add("linkw 0 %s %s %s %s" % (hx(b"/Base"), hx(b"ZoneL"), hx(fname), hx(b"/Base/Zone2")))
+        c.add("close 0")
+        for op in config:
+            c.add(op)
+        if not readback:
+            return c
+        c.add("open 0 %s r" % hx(apath), hint=hint)
+        c.add("islink 0 %s" % hx(GC), "ok 1", hint)
+        c.add("linkr 0 %s" % hx(GC), "ok L:%s:%s" % (hx(fname), hx(b"/Base/Zone2/GridCoordinates")), hint)
+        c.add("islink 0 %s" % hx(b"/Base/Zone1"), "ok 0", hint)
+        c.add("islink 0 %s" % hx(b"/Base/ZoneL"), "ok 1", hint)
+        c.add("coords 0 1 1", mll_coords_line(sb, 2), hint)
+        c.add("sol 0 1 1", mll_sol_line(sb, 1), hint)
+        c.add("nzones 0 1", "ok 2", hint)
+        c.add("zone 0 1 2", "ok Z:%s:2:3:3:3:2:2:2:0:0:0" % hx(b"ZoneL"), hint)
+        c.add("coords 0 1 2", mll_coords_line(sb, 2), hint)
+        c.add("sol 0 1 2", mll_sol_line(sb, 2), hint)
+        i = c.add("open 1 %s r" % hx(bpath))
+        c.add("coords 1 1 2", mll_coords_line(sb, 2))              # the target read directly, same session
+        c.add("sol 1 1 1", mll_sol_line(sb, 1))
+        c.add("close 1"); c.add("close 0")
+        return c
+
+    cases.append(basic("same-dir-relative", "m", b"b.cgns"))
+    cases.append(basic("absolute", "p2", (root + "/p2/b.cgns").encode()))
+    cases.append(basic("cwd", "cwd", b"b.cgns"))
+    p1, p2, p3 = (root + "/p1").encode(), (root + "/p2").encode(), (root + "/p3").encode()
+    h5p = {"hdf5": K_H5PATH}
+    cases.append(basic("cg_set_path", "p1", b"b.cgns", ["setpath %s" % hx(p2 + b":" + p1)], h5p))
+    cases.append(basic("cg_add_path", "p1", b"b.cgns", ["setpath %s" % hx(p2), "addpath %s" % hx(p1)], h5p))
+    cases.append(basic("cg_add_path-keeps-earlier", "p1", b"b.cgns", ["setpath %s" % hx(p1), "addpath %s" % hx(p2)], h5p))
+    cases.append(basic("cg_configure-set", "p1", b"b.cgns", ["cfgset %s" % hx(p1)], h5p))
+    cases.append(basic("cg_configure-add", "p1", b"b.cgns", ["cfgset %s" % hx(p3), "cfgadd %s" % hx(p1)], h5p))
+    cases.append(basic("cg_configure-add-keeps-earlier", "p1", b"b.cgns", ["cfgset %s" % hx(p1), "cfgadd %s" % hx(p3)],
+                       {"hdf5": K_H5PATH, "adf": K_CFGADD}))
+    cases.append(basic("env-CGNS_LINK_PATH", "p1", b"b.cgns", ["setenv CGNS_LINK_PATH %s" % hx(p3 + b":" + p1)], h5p))
+    cases.append(basic("env-type-LINK_PATH", "p1", b"b.cgns", ["setenv %s %s" % (ENVNAME[be], hx(p1))], h5p))
+
+    # link to a link across files: C -> A -> B
+    c = basic("chain", "m", b"b.cgns")
+    cpath = c.P("m/c.cgns")
+    c.add("mkfile %s 1 %d 0 0" % (hx(cpath), sa + 1))
+    c.add("open 2 %s m" % hx(cpath))
+    c.add("linkw 2 %s %s %s %s" % (hx(b"/Base/Zone1"), hx(b"GridCoordinates"), hx(b"a.cgns"), hx(GC)))
+    c.add("linkw 2 %s %s %s %s" % (hx(b"/Base"), hx(b"ZoneLL"), hx(b"a.cgns"), hx(b"/Base/ZoneL")))
+    c.add("close 2")
+    c.add("open 2 %s r" % hx(cpath), hint=chain_hint)
+    c.add("coords 2 1 1", mll_coords_line(sb, 2), chain_hint)
+    c.add("zone 2 1 2", "ok Z:%s:2:3:3:3:2:2:2:0:0:0" % hx(b"ZoneLL"), chain_hint)
+    c.add("coords 2 1 2", mll_coords_line(sb, 2), chain_hint)
+    c.add("close 2")
+    cases.append(c)
+
+    # non-owning: delete the link, re-create it with another target; the old target is read directly before and after
+    c = basic("delete-retarget", "m", b"b.cgns", readback=False)
+    apath, bpath = c.P("m/a.cgns"), c.P("m/b.cgns")
+    c.add("open 0 %s m" % hx(apath))
+    c.add("delnode 0 %s %s" % (hx(b"/Base/Zone1"), hx(b"GridCoordinates")))
+    c.add("delnode 0 %s %s" % (hx(b"/Base"), hx(b"ZoneL")))
+    c.add("linkw 0 %s %s %s %s" % (hx(b"/Base/Zone1"), hx(b"GridCoordinates"), hx(b"b.cgns"), hx(GC)))
+    c.add("close 0")
+    c.add("open 1 %s r" % hx(bpath))
+    c.add("nzones 1 1", "ok 2")
+    c.add("coords 1 1 2", mll_coords_line(sb, 2)); c.add("sol 1 1 2", mll_sol_line(sb, 2)); c.add("coords 1 1 1", mll_coords_line(sb, 1))
+    c.add("open 0 %s r" % hx(apath))
+    c.add("nzones 0 1", "ok 1")
+    c.add("coords 0 1 1", mll_coords_line(sb, 1))
+    c.add("close 0"); c.add("close 1")
+    cases.append(c)
+
+    # the everyday sequence: read through the link, close, come back to modify the linking file, read again
+    c = basic("read-then-modify", "m", b"b.cgns")
+    leak = {"hdf5": K_H5LEAK}
+    c.add("open 0 %s m" % hx(c.P("m/a.cgns")), hint=leak)
+    c.add("coords 0 1 1", mll_coords_line(sb, 2), leak)
+    c.add("close 0", hint=leak)
+    cases.append(c)
+
+    # dangling: the file, then the node, is missing -- opening / reading must fail cleanly, nothing may crash or hang
+    for kind in ("file", "node"):
+        c = MllCase("dangling-" + kind, be, root)
+        apath, bpath = c.P("m/a.cgns"), c.P("m/b.cgns")
+        c.add("setpath -")
+        c.add("mkfile %s 2 %d 1 1" % (hx(bpath), sb))
+        c.add("mkfile %s 1 %d 0 0" % (hx(apath), sa))
+        c.add("open 0 %s m" % hx(apath))
+        c.add("linkw 0 %s %s %s %s" % (hx(b"/Base/Zone1"), hx(b"GridCoordinates"),
+                                       hx(b"nothere.cgns" if kind == "file" else b"b.cgns"), hx(b"/Base/Zone2/Nothing" if kind == "node" else GC)))
+        c.add("close 0")
+        c.add("open 0 %s r" % hx(apath), ("clean", ))               # either outcome, but a status and no crash
+        c.add("coords 0 1 1", ("clean", ))
+        c.add("open 1 %s r" % hx(bpath))
+        c.add("coords 1 1 2", mll_coords_line(sb, 2))
+        cases.append(c)
+    return cases
+
+
+def run_mll(exe, case):
+    prepare_dirs(case.root)
+    for k in ("ADF_LINK_PATH", "HDF5_LINK_PATH", "CGNS_LINK_PATH", "HDF5_EXT_PREFIX"):
+        os.environ.pop(k, None)
+    il, outcome, stack = vlib.run_impl(exe, "\n".join(case.lines) + "\n", timeout=120, cwd=os.path.join(case.root, "cwd"), want_stack=True)
+    il = [BADID.sub("", l) for l in il]
+    fails = []
+    for i, exp in enumerate(case.expect):
+        got = il[i] if i < len(il) else None
+        if got is None:
+            fails.append((i, dict(op=nodedb.short(case.lines[i], 200), outcome=outcome, stack=stack), None))
+            break
+        if isinstance(exp, tuple):
+            if not (got.startswith("ok") or got.startswith("err")):
+                fails.append((i, dict(op=nodedb.short(case.lines[i], 200), got=got), None))
+            continue
+        if got != exp:
+            key = (case.hint[i] or {}).get(case.be)
+            fails.append((i, dict(op=nodedb.short(case.lines[i], 200), expected=nodedb.short(exp, 200), got=nodedb.short(got, 200),
+                                  oracle="what mkfile wrote into the target / direct read of the target"), key))
+            if exp == "ok":
+                break
+    if outcome != "ok" and not fails:
+        fails.append((len(il), dict(outcome=outcome, stack=stack), None))
+    return fails, il, outcome
